@@ -53,10 +53,10 @@ def g_case(draw, allow_var=True, max_rows=None):
     else:
         rel = None
         alpha = gen.choice(draw, [0.0, 1.0, 0.5, draw(gen.st.floats(0, 1))])
-    how = gen.presentation(draw)
-    return {"prior": prior, "X": X, "upd": [bool(u) for u in upd], "relevance": rel, "alpha": float(alpha),
-            "starve": bool(starve), "count_floor": gen.choice(draw, [EPS, EPS, 1e-6]),
-            "how": "plain" if how == "int" else how}
+    c = {"prior": prior, "X": X, "upd": [bool(u) for u in upd], "relevance": rel, "alpha": float(alpha),
+         "starve": bool(starve), "count_floor": gen.choice(draw, [EPS, EPS, 1e-6]), "scales": scales}
+    c["how"] = gen.presentation_for(draw, c)
+    return c
 
 
 def map_machine(case, cap, prior_machine=None, thr=None):
